@@ -457,7 +457,7 @@ class _Ctx(object):
       if got[0] != "ok" or got[1] is not obj:
         raise _Mismatch("thub-scalar", "thub(%r, %d) gave %r" % (obj, op[2],
                                                                  got))
-      self.events.append("thub_scalar %r" % (obj,))
+      self.events.append("thub_scalar #%d" % (op[1] % len(NON_ITERABLES)))
       return
     if name == "hub_use":
       h = self.pick("hub")
